@@ -222,6 +222,7 @@ enum Kind {
     Undo,
     Redo,
     Restore,
+    Revert,
 }
 
 impl Engine for CliSim {
@@ -269,7 +270,7 @@ impl Engine for CliSim {
     }
 
     fn fault_kinds(&self) -> Vec<&'static str> {
-        vec!["command_at_older_operation", "stale_workspace", "ignore_working_copy", "undo_redo", "op_restore", "refused_immutable"]
+        vec!["command_at_older_operation", "stale_workspace", "ignore_working_copy", "undo_redo", "op_restore", "op_revert", "refused_immutable"]
     }
 
     #[allow(clippy::too_many_lines)]
@@ -277,6 +278,9 @@ impl Engine for CliSim {
         let mut out = RunOutcome::default();
         let scratch = std::fs::canonicalize(scratch).unwrap();
         write_config(&scratch);
+        // which refs make commits immutable: 0 trunk|tags, 1 tags only, 2 trunk only
+        let immut_variant = ch.choose(3);
+        let (trunk_protects, tags_protect) = [(true, true), (false, true), (true, false)][immut_variant];
         let immut = match prop {
             "C41" => false,
             "C42" => true,
@@ -286,12 +290,12 @@ impl Engine for CliSim {
             use std::io::Write as _;
             let mut f = std::fs::OpenOptions::new().append(true).open(scratch.join("config.toml")).unwrap();
             if immut {
-                writeln!(f, "[revset-aliases]\n\"immutable_heads()\" = \"present(bookmarks(exact:trunk)) | tags()\"").unwrap();
+                writeln!(f, "[revset-aliases]\n\"immutable_heads()\" = \"{}\"", ["present(bookmarks(exact:trunk)) | tags()", "tags()", "present(bookmarks(exact:trunk))"][immut_variant]).unwrap();
             } else {
                 writeln!(f, "[revset-aliases]\n\"immutable_heads()\" = \"none()\"").unwrap();
             }
         }
-        out.config = format!("immutable_heads={}", if immut { "trunk|tags" } else { "none" });
+        out.config = format!("immutable_heads={}", if immut { ["trunk|tags", "tags", "trunk"][immut_variant] } else { "none" });
         let ws1 = scratch.join("ws");
         let ws2 = scratch.join("ws2");
         let mut num = 10u64;
@@ -331,7 +335,10 @@ impl Engine for CliSim {
                 jj(&[s("commit"), s("-m"), format!("base {i}")], &ws1);
             }
             jj(&[s("bookmark"), s("set"), s("trunk"), s("-r"), s(["@-", "@--"][ch.choose(2)]), s("--allow-backwards")], &ws1);
-            note!("setup: protected history with bookmark trunk");
+            if ch.chance(1, 2) {
+                jj(&[s("tag"), s("set"), s("v0"), s("-r"), s(["@-", "@--"][ch.choose(2)])], &ws1);
+            }
+            note!("setup: protected history with bookmark trunk (and maybe tag v0)");
         }
         for step in 0..steps {
             // --- which workspace
@@ -351,7 +358,14 @@ impl Engine for CliSim {
             let protected: Vec<CommitId> = if immut {
                 let mut roots: Vec<CommitId> = vec![];
                 let rn: RefNameBuf = "trunk".into();
-                roots.extend(repo_before.view().get_local_bookmark(&rn).added_ids().cloned());
+                if trunk_protects {
+                    roots.extend(repo_before.view().get_local_bookmark(&rn).added_ids().cloned());
+                }
+                if tags_protect {
+                    for (_, t) in repo_before.view().local_tags() {
+                        roots.extend(t.added_ids().cloned());
+                    }
+                }
                 let mut v: Vec<CommitId> = ancestors_of(&repo_before, &roots).into_iter().filter(|c| c != repo_before.store().root_commit_id()).collect();
                 v.sort();
                 v
@@ -366,7 +380,7 @@ impl Engine for CliSim {
                 }
             };
             // --- choose the command
-            let k = ch.weighted(&[5, 3, 3, 2, 2, 2, 2, 3, 1, 1, 3, 2, 1, 1, 1, 1, 1, 1, 1, 1, 1, 1, 1, 1, 1, 1, 1, 1, 1]);
+            let k = ch.weighted(&[5, 3, 3, 2, 2, 2, 2, 3, 1, 1, 3, 2, 1, 1, 1, 1, 1, 1, 1, 1, 1, 1, 1, 1, 1, 1, 1, 1, 1, 1]);
             kinds.push(k as u8);
             let mut kind = Kind::Normal;
             let mut judged_immutable = true;
@@ -444,6 +458,12 @@ impl Engine for CliSim {
                     judged_immutable = false;
                     vec![s("tag"), s("set"), format!("v{}", ch.choose(2)), s("-r"), pick_rev(&mut ch), s("--allow-move")]
                 }
+                29 => {
+                    // revert the latest operation: judged like an undo of it
+                    judged_immutable = false;
+                    kind = Kind::Revert;
+                    vec![s("op"), s("revert"), s("@")]
+                }
                 _ => vec![s("duplicate"), pick_rev(&mut ch)],
             };
             if kind == Kind::Normal && ch.chance(1, 10) && !older_ops.is_empty() && !matches!(k, 13) {
@@ -479,9 +499,13 @@ impl Engine for CliSim {
             let immutable_before: HashSet<CommitId> = if immut {
                 let mut roots: Vec<CommitId> = vec![];
                 let rn: RefNameBuf = "trunk".into();
-                roots.extend(repo_before.view().get_local_bookmark(&rn).added_ids().cloned());
-                for (_, t) in repo_before.view().local_tags() {
-                    roots.extend(t.added_ids().cloned());
+                if trunk_protects {
+                    roots.extend(repo_before.view().get_local_bookmark(&rn).added_ids().cloned());
+                }
+                if tags_protect {
+                    for (_, t) in repo_before.view().local_tags() {
+                        roots.extend(t.added_ids().cloned());
+                    }
                 }
                 let mut set = ancestors_of(&repo_before, &roots);
                 set.remove(repo_before.store().root_commit_id());
@@ -622,6 +646,31 @@ impl Engine for CliSim {
                         undone = 0;
                         anchor = None;
                     }
+                }
+                Kind::Revert => {
+                    out.fault("op_revert", 1);
+                    nontrivial = true;
+                    // the new head must be a child of the operation that was the
+                    // head (no snapshot got between) and that operation must have
+                    // one parent; then the state equals that parent's
+                    if ok
+                        && let Ok(parents) = repo_after.operation().parents().block_on()
+                        && parents.len() == 1
+                        && parents[0].id() == repo_before.op_id()
+                        && let Ok(grand) = parents[0].parents().block_on()
+                        && grand.len() == 1
+                        && let Ok(view) = grand[0].view().block_on()
+                    {
+                        let want = core_of(view.store_view());
+                        if core_after != want {
+                            out.violate("C41", "op_revert_of_latest_did_not_restore_previous_state", "clisim:op_revert_of_latest_did_not_restore_previous_state".into(), format!("after op revert @: {}", describe_core_diff(&core_after, &want)), seq);
+                        } else {
+                            out.probe("op_revert_checked", 1);
+                        }
+                    }
+                    segment_ops = 0;
+                    undone = 0;
+                    anchor = None;
                 }
                 Kind::Restore => {
                     out.fault("op_restore", 1);
